@@ -329,6 +329,18 @@ def c_constrain(case, ctx):
     val = idx.dot(hull.equations[:, :2].T) + hull.equations[:, 2]
     inside = np.all(val <= -1e-7, axis=1)
     clearly_out = np.any(val >= 1e-7, axis=1)
+    # a pixel lying on an interior edge of the triangulation is located by rounding (it may fall in neither
+    # adjacent triangle); every triangulation edge joins two points of the cloud, so pixels within 1e-6 of ANY
+    # segment between two cloud points are not judged
+    on_edge = np.zeros(idx.shape[0], dtype=bool)
+    for i in range(pts.shape[0]):
+        for j in range(i + 1, pts.shape[0]):
+            a, b = pts[i], pts[j]
+            ab = b - a
+            tpar = np.clip((idx - a).dot(ab) / ab.dot(ab), 0.0, 1.0)
+            dist = np.linalg.norm(idx - (a + tpar[:, None] * ab), axis=1)
+            on_edge |= dist < 1e-6
+    inside &= ~on_edge
     got = base.pixels[0].reshape(-1)
     ctx.expect(np.all(got[inside]), "constrain_to_pointcloud.inside_pixel_false", "%d hull-interior pixels are False" % int((~got[inside]).sum()))
     ctx.expect(not np.any(got[clearly_out]), "constrain_to_pointcloud.outside_pixel_true", "%d outside pixels are True" % int(got[clearly_out].sum()))
